@@ -43,7 +43,7 @@ SHRINK = ["ops"]
 def plan(tier):
     if tier == "thorough":
         return {"cases": 1500, "timeout": 900, "wall_budget": 1700, "recheck": 4, "nproc": 6}
-    return {"cases": 24, "timeout": 600, "wall_budget": 65, "recheck": 2, "nproc": 6}
+    return {"cases": 40, "timeout": 600, "wall_budget": 110, "recheck": 2, "nproc": 6}
 
 FILES = ["a.txt", "b.txt", "dir/c.txt"]
 
